@@ -740,6 +740,13 @@ def install_loop(e):
                           z(c.ghost["resched"]) == z(old.ghost["resched"]))
         # reconnect configured: no teardown, no on_close; an external dispatcher is asked for exactly one later attempt
         custom = env["custom_dispatcher"]
+        if custom and c.mode != "assume":
+            # what the external dispatcher was asked to run later: setSock(reconnecting=True) - the re-established connection
+            # fires on_reconnect, the previous socket is shut down first and a failed attempt is not reported as a fresh error
+            call = c.ghost.get("$resched_call")
+            is_true = lambda v: v is True or (isinstance(v, SV) and z3.is_true(z3.simplify(z(v, "bool"))))
+            ok = call is not None and len(call) == 2 and call[0] is env["setSock"] and is_true(call[1])
+            base = z3.And(base, z3.BoolVal(bool(ok)))
         return z3.And(base, z(c.ghost["dl"]) == dl_err, z(c.ghost["teardowns"]) == z(old.ghost["teardowns"]),
                       z(c.getf(app, "has_done_teardown"), "bool") == z(old.getf(app, "has_done_teardown"), "bool"),
                       z(c.ghost["resched"]) == z(old.ghost["resched"]) + (1 if custom else 0))
@@ -774,6 +781,7 @@ def install_loop(e):
     def resched_havoc(c, a, old, k):
         c.ghost["resched"] = SV("int", z(c.ghost["resched"]) + 1)
         c.ghost["resched_delay"] = a["$args"][0]
+        c.ghost["$resched_call"] = tuple(a["$args"][1:])
     e.add(Contract("ext:rel.read", assumed=True, havoc=lambda c, a, old, k: None,
                    doc="external dispatcher read(sock, callback): registers the read callback; returns at once"))
     e.add(Contract("ext:rel.timeout", assumed=True, havoc=resched_havoc,
